@@ -14,7 +14,7 @@ PROP_ID = "C14"
 LEVEL = "exploration"
 RULE = (
     "cases = (tree <= 20 nodes of AnyNode where each node carries the searched attributes 'name'/'kind' only with some "
-    "probability (values include strings with '%' and a wildcard object equal to everything), start node, stop set, filtered-out set, maxlevel, attribute name and value); for every case all 25 "
+    "probability (values include strings with '%', a wildcard object equal to everything and one shared NaN object, which equals nothing), start node, stop set, filtered-out set, maxlevel, attribute name and value); for every case all 25 "
     "(mincount, maxcount) combinations from {None, 0, c-1, c, c+1} around the real match count c are executed for findall and "
     "findall_by_attr, in anytree.search and anytree.cachedsearch, keyword and positional forms, plus find/find_by_attr. "
     "Shapes <= 5 nodes are enumerated with systematic attribute patterns; the rest is Hypothesis-generated. "
@@ -26,7 +26,8 @@ ASSUMPTIONS = [
     "CountError message is only required to contain the match count and the violated bound as decimal numbers before the result repr",
 ]
 # '%' in values ends up in node reprs and so in CountError messages; {"anyeq": 1} is a wildcard value (equal to everything, like unittest.mock.ANY)
-VALUES = [1, "1", 2, "b", None, {"list": [1]}, {"tuple": [1]}, {"list": []}, "50%", "%d %s", "%%", {"anyeq": 1}]
+VALUES = [1, "1", 2, "b", None, {"list": [1]}, {"tuple": [1]}, {"list": []}, "50%", "%d %s", "%%", {"anyeq": 1}, {"nan": 1}]
+NAN = float("nan")  # ONE object, stored on nodes and used as search value: equal to nothing, not even to itself
 ATTR_NAMES = ["name", "kind", "parent.name", "root.kind", "a.b"]
 # attributes that exist without living in the instance dict: read-only node properties and a class-level default
 SEARCH_NAMES = ATTR_NAMES + ["depth", "height", "is_leaf", "colour"]
@@ -37,6 +38,8 @@ def val(spec):
     if isinstance(spec, dict):
         if "anyeq" in spec:
             return AnyEq()
+        if "nan" in spec:
+            return NAN
         return list(spec["list"]) if "list" in spec else tuple(spec["tuple"])
     return spec
 
